@@ -464,6 +464,13 @@ impl<Upstream> ValidationContext<Upstream> {
             return Ok((maybe_secure, ede));
         }
 
+        // RFC 4035, Section 3.2.3: a response is only authentic if all
+        // RRsets in the answer section are. An RRset that is not part of
+        // the CNAME/DNAME chain and that is not secure downgrades the result.
+        let maybe_secure = answers
+            .iter()
+            .fold(maybe_secure, |acc, g| map_maybe_secure(g.state(), acc));
+
         // For NOERROR, check if the answer is positive. Then extract the status
         // of the group and be done.
         // For NODATA first get the SOA, this determines if the proof of a
